@@ -118,7 +118,10 @@ class HistoryRun:
         side, op, args = act[1], act[2], act[3:]
         if self.exp is not None:
             try:
-                self.exp.apply(op, *args)
+                from .gen import lower_op
+                mop = lower_op(self.trace["cfg"], [op] + list(args))
+                if not (mop[0] == "rename" and mop[1] == mop[2]):      # case-only rename: same tree modulo case
+                    self.exp.apply(*mop)
             except ModelInvalid:
                 self.exp = None
         self.case.user(side, op, *args)
